@@ -69,10 +69,14 @@ fn publish_request(now: &DateTimeUtc, handle: u32) -> PublishRequest {
     }
 }
 
+/// The model counts time in units and never says how long a unit is; the harness makes a unit either one
+/// millisecond or 17/16 of one (so that publishing intervals and tick times are not whole milliseconds:
+/// 1000 units = 1062.5 ms, exactly representable as f64 and as a whole number of nanoseconds).
 fn exec_hist(kac: u32, life: u32, enabled: bool, ivl: u32, ops: &[Op]) -> Vec<i128> {
+    let unit_ns: i64 = if (kac as usize + life as usize + ops.len()) % 2 == 0 { 1_000_000 } else { 1_062_500 };
     let address_space = AddressSpace::default();
     let mut out = Vec::new();
-    let mut sub = Subscription::new(diag(), 1, enabled, ivl as f64, life, kac, 0);
+    let mut sub = Subscription::new(diag(), 1, enabled, (ivl as i64 * unit_ns) as f64 / 1e6, life, kac, 0);
     sub.verif_s1_set_last_time(t0());
     let mut subs = VerifS1Subscriptions::new(100, 30000);
     subs.insert(1, sub);
@@ -86,7 +90,7 @@ fn exec_hist(kac: u32, life: u32, enabled: bool, ivl: u32, ops: &[Op]) -> Vec<i1
                 guarded(|| subs.enqueue_publish_request(&now, handle, req, &address_space))
             }
             Op::Timer(dt) => {
-                now = now + chrono::Duration::milliseconds(*dt);
+                now = now + chrono::Duration::nanoseconds(*dt * unit_ns);
                 guarded(|| subs.tick_timer(&now, &address_space))
             }
         };
